@@ -136,8 +136,7 @@ func c01EmitOrder(c *Ctx) {
 	var cl, body ssa.CallInstruction
 	nCL := 0
 	for _, cs := range w.callsIn(f, "fmt.Fprintf") {
-		format, _, _ := w.fmtArgs(cs.In)
-		if s, ok := constString(format); ok && strings.Contains(strings.ToLower(s), "content-length") {
+		if s, _, ok := w.foldFormat(cs.In); ok && strings.Contains(strings.ToLower(s), "content-length") {
 			cl = cs.In
 			nCL++
 		}
@@ -164,8 +163,7 @@ func c01EmitOrder(c *Ctx) {
 		rule, "Write/same-writer", w.pos(f.Pos()), "all four steps write this message to the given writer", "a step of Write does not write this message to Write's own writer argument")
 	// cl-value
 	rule = "cl-value"
-	format, args, _ := w.fmtArgs(cl)
-	fs, _ := constString(format)
+	fs, args, _ := w.foldFormat(cl)
 	c.check(fs == "Content-Length: %d\r\n\r\n", rule, "Write/cl-format", w.ipos(cl), "literal is 'Content-Length: %d CRLF CRLF'", fmt.Sprintf("the Content-Length line is printed with the literal %q, expected \"Content-Length: %%d\\r\\n\\r\\n\" (one field, then the blank line)", fs))
 	okLen := false
 	var lenArg ssa.Value
@@ -186,7 +184,7 @@ func c01EmitOrder(c *Ctx) {
 	n := 0
 	for _, fn := range w.All {
 		for _, cs := range w.callsIn(fn) {
-			if !isFmtPrintf(cs.Name) {
+			if !isFmtPrintf(cs.Name) || cs.Name == "fmt.Errorf" { // the text of an error value is never written to a peer
 				continue
 			}
 			format, args, ok := w.fmtArgs(cs.In)
